@@ -991,6 +991,44 @@ def space_delegation(ctx):
                 detail={"phase": key, "handler": m.qual if m else None})
 
 
+# ---------------------------------------------------------------------------- C01.18 "if the end tag was not ignored, reprocess"
+def reprocess_condition(ctx):
+    """Several start-tag handlers act as if an end tag had been seen and then reprocess the token *unless that end tag was
+    ignored* (the element was not in scope: fragment case).  The condition has to be that scope test.  Approximating it by
+    "we are not parsing a fragment" loses the token in every fragment parse in which the element *is* in scope
+    (parseFragment('<table><table>x') drops the second table)."""
+    r = ctx.r
+    pm = model(ctx)
+    n = 0
+    for f in ctx.repo.module(PARSER_REL).all_functions:
+        if f.cls is None or not f.cls.is_subclass_of(pm.Phase) or len(f.params()) < 2:
+            continue
+        tok = f.params()[1]
+        implied = [c for c in walk_no_nested(f.node) if isinstance(c, ast.Call) and isinstance(c.func, ast.Attribute) and c.func.attr == "processEndTag"
+                   and c.args and isinstance(c.args[0], ast.Call) and norm(c.args[0].func) == "impliedTagToken"]
+        if not implied:
+            continue
+        # an unconditional hand-back after the implied end tag is judged by C03.9 (it must be able to make progress)
+        for st in f.node.body:
+            if isinstance(st, ast.Return) and st.value is not None and norm(st.value) == tok and st.lineno > implied[0].lineno:
+                n += 1
+                r.ok("C01.18", "reprocess-unless-ignored::%s" % f.qual, "%s:%d" % (PARSER_REL, st.lineno), detail={"handler": f.qual, "condition": "unconditional"})
+        for iff in [x for x in walk_no_nested(f.node) if isinstance(x, ast.If)]:
+            if not (len(iff.body) == 1 and isinstance(iff.body[0], ast.Return) and iff.body[0].value is not None and norm(iff.body[0].value) == tok and iff.lineno > implied[0].lineno):
+                continue
+            n += 1
+            t = norm(iff.test)
+            r.idiom("C01.18", "innerHTML" not in t and ("ignore" in t.lower() or "elementInScope" in t), "reprocess-unless-ignored::%s" % f.qual,
+                    "%s:%d" % (PARSER_REL, iff.lineno), "%s: the condition `%s` of the hand-back was not recognised" % (f.qual, t),
+                    wrong=[("innerHTML" in t,
+                            "%s reprocesses the token only when no fragment is being parsed (`%s`) instead of when the implied end tag was "
+                            "not ignored: in a fragment parse in which the element is in scope the token is dropped "
+                            "(parseFragment('<table><table>x') yields one table)" % (f.qual, t))],
+                    detail={"handler": f.qual, "condition": t})
+    if n < 3:
+        raise AnalysisError("C01.18 matched %d conditional hand-backs after an implied end tag (expected >= 3)" % n)
+
+
 # ---------------------------------------------------------------------------- C01.10 quirks mode
 QUIRKS_EXACT = {"-//w3o//dtd w3 html strict 3.0//en//", "-/w3c/dtd html 4.0 transitional/en", "html"}
 QUIRKS_SYSTEM = "http://www.ibm.com/data/dtd/v11/ibmxhtml1-transitional.dtd"
@@ -1356,6 +1394,7 @@ def run(ctx):
     r.rule("C01.10", "quirks / limited-quirks decision equals the standard's for representative DOCTYPE tokens", floor=500)
     r.rule("C01.11", "a delegation whose result is discarded cannot lose a reprocess request", floor=50)
     r.rule("C01.13", "formatting-list scans stop at markers; stale formatting element removed from both lists; foreign breakout pops to an HTML element or integration point", floor=10)
+    r.rule("C01.18", "a token is reprocessed after an implied end tag exactly when that end tag was not ignored (scope test, not 'not a fragment')", floor=3)
     r.rule("C01.17", "white space is handed to the in-body rules in the modes where the standard says so", floor=5)
     r.rule("C01.16", "attribute-name adjustment rebuilds the mapping in source order", floor=1)
     r.rule("C01.15", "adoption agency: outer loop bounded by 8, inner loop not bounded by a counter", floor=2)
@@ -1378,6 +1417,7 @@ def run(ctx):
     adoption_loops(ctx)
     attribute_order(ctx)
     space_delegation(ctx)
+    reprocess_condition(ctx)
     from . import modes
     modes.run(ctx, "C01.12")
     standard_tables(ctx)
@@ -1391,6 +1431,8 @@ def thorough(ctx):
 def mutants():
     from ..selftest import TextMutant as T
     return [
+        T("intable-table-reprocess-unless-fragment", "html5parser.py", "        ignoreEndTag = not self.tree.elementInScope(\"table\", variant=\"table\")\n        self.parser.phase.processEndTag(impliedTagToken(\"table\"))\n        if not ignoreEndTag:\n            return token",
+          "        self.parser.phase.processEndTag(impliedTagToken(\"table\"))\n        if not self.parser.innerHTML:\n            return token", "C01.18"),
         T("cell-space-generic", "html5parser.py", "    def processSpaceCharacters(self, token):\n        return self.parser.phases[\"inBody\"].processSpaceCharacters(token)\n\n    def startTagTableOther(self, token):", "    def startTagTableOther(self, token):", "C01.17"),
         T("foster-any-node", "treebuilders/base.py", "        if (not self.insertFromTable or (self.insertFromTable and\n                                         self.openElements[-1].name\n                                         not in tableInsertModeElements)):", "        if not self.insertFromTable:", "C01.14"),
         T("foster-element-any-node", "treebuilders/base.py", "        if self.openElements[-1].name not in tableInsertModeElements:\n            return self.insertElementNormal(token)", "        if False:\n            return self.insertElementNormal(token)", "C01.14"),
